@@ -13,13 +13,22 @@ def build(tier, seed):
     if tier == "thorough":
         sshapes += [(1, 0, 0), (1, 0, 1), (1, 0, 2), (2, 0, 3), (2, 1, 2), (2, 1, 3), (3, 0, 6), (3, 1, 4), (3, 2, 6), (3, 2, 2), (2, 1, 1), (4, 2, 8)]
     for w, j, flen in sshapes:
-        I.append(snd("c04_snd_w%d_j%d_f%d" % (w, j, flen), w, 2, j, flen, oracle=so))
+        # r0=9: the number of failed receives already counted in the current window is symbolic (0..5)
+        I.append(snd("c04_snd_w%d_j%d_f%d" % (w, j, flen), w, 2, j, flen, oracle=so, r0=9))
+    # progress resets the retry budget: 5 failed receives, then an ACK that advances the window (sender) / an in-sequence
+    # block (receiver), then one more failed receive -> the transfer must go on (failures are not consecutive)
+    for w, j, flen in ([(1, 0, 3), (2, 1, 4)] if tier == "quick" else [(1, 0, 3), (2, 1, 4), (3, 2, 6), (2, 0, 5)]):
+        I.append(snd("c04_reset_snd_w%d_j%d_f%d" % (w, j, flen), w, 2, j, flen, oracle=so, r0=5, tmo=5, b0=(7, 7),
+                     events=[(K_ACK, 0, 0, 0), (K_TIMEOUT, None, 0, 6)]))
+    for w, j in ([(3, 0), (2, 0)] if tier == "quick" else [(3, 0), (3, 1), (2, 0), (4, 2)]):
+        I.append(rcv("c04_reset_rcv_w%d_j%d" % (w, j), w, 2, j, 0, oracle=ro, r0=5, tmo=5, b0=(7, 7),
+                     events=[(K_DATA, 1, 2, 0), (K_TIMEOUT, None, 0, 6)]))
     # receiver: lost DATA / reordering / duplication = out-of-sequence arrival: nothing stored, no abort
     rshapes = [(1, 0, 2, 2), (2, 1, 0, 2), (3, 2, 2, 1), (2, 0, 2, 0)]
     if tier == "thorough":
         rshapes += [(1, 0, 0, 1), (2, 1, 2, 2), (3, 0, 0, 2), (3, 1, 2, 2), (3, 2, 0, 0), (4, 3, 0, 2)]
     for w, j, flen, dlen in rshapes:
-        I.append(rcv("c04_rcv_w%d_j%d_f%d_d%d" % (w, j, flen, dlen), w, 2, j, flen, dlen=dlen, oracle=ro))
+        I.append(rcv("c04_rcv_w%d_j%d_f%d_d%d" % (w, j, flen, dlen), w, 2, j, flen, dlen=dlen, oracle=ro, r0=9))
     # receiver: a lost ACK must be repaired: the sender retransmits the acknowledged block(s); after the
     # duplicate of the last acknowledged block and a following time-out the ACK has been sent again
     # (either reaction - re-ACK on the duplicate or on the time-out - is accepted)
